@@ -770,8 +770,9 @@ func (r *Router) processEvent(ev *types.Event, reqID interface{}) error {
 			}
 
 			// If the span was kept, we want to generate a probe that we'll forward
-			// to a peer IF this span would have been forwarded.
-			ev.Data.MetaRefineryProbe.Set(true)
+			// to a peer IF this span would have been forwarded. The span itself
+			// now belongs to the upstream transmission and must not be modified
+			// any more, so the probe is a copy (made below).
 			isProbe = true
 		}
 	}
@@ -785,6 +786,11 @@ func (r *Router) processEvent(ev *types.Event, reqID interface{}) error {
 			WithField("isprobe", isProbe).
 			Logf("Sending span from batch to peer")
 
+		if isProbe {
+			probe := *ev
+			probe.Data.MetaRefineryProbe.Set(true)
+			ev = &probe
+		}
 		ev.APIHost = targetShard.GetAddress()
 
 		// Unfortunately this doesn't tell us if the event was actually
